@@ -182,8 +182,17 @@ async fn run_script(steps: Vec<String>) -> (String, Option<String>) {
                             }));
                         } else {
                             cmds.push(None);
+                            let opno = views.len();
                             tasks.push(tokio::spawn(async move {
-                                let r: Result<String, ldap3::LdapError> = if kind == "single" { l.delete("cn=x").await.map(|r| format!("ok:{}", r.text)) }
+                                // a single-result operation goes out through a different call of the API from one operation to the next (all of them share
+                                // op_call(LdapOp::Single, ..); what a call does around it - a Bind in the middle of open operations, say - is then exercised too)
+                                let r: Result<String, ldap3::LdapError> = if kind == "single" { match opno % 6 {
+                                        1 => l.simple_bind("cn=u", "pw").await.map(|r| format!("ok:{}", r.text)),
+                                        2 => l.compare("cn=x", "cn", "v").await.map(|r| format!("ok:{}", r.0.text)),
+                                        3 => l.extended(ldap3::exop::WhoAmI).await.map(|r| format!("ok:{}", r.1.text)),
+                                        4 => l.modifydn("cn=x", "cn=y", true, None).await.map(|r| format!("ok:{}", r.text)),
+                                        5 => l.sasl_external_bind().await.map(|r| format!("ok:{}", r.text)),
+                                        _ => l.delete("cn=x").await.map(|r| format!("ok:{}", r.text)) } }
                                     else if kind == "unbind" { l.unbind().await.map(|_| "ok:null".to_string()) }
                                     else { l.abandon(kind[2..].parse().unwrap()).await.map(|_| "ok:null".to_string()) };
                                 view.lock().unwrap().status = match r { Ok(s) => s, Err(e) => format!("err:{}", err_class(&e)) };
@@ -263,7 +272,8 @@ async fn run_script(steps: Vec<String>) -> (String, Option<String>) {
         let mut buf = vec![0u8; 65536];
         loop { match server.read(&mut buf).now_or_never() { Some(Ok(0)) => { eof = true; break; } Some(Ok(n)) => inbuf.extend_from_slice(&buf[..n]), Some(Err(_)) => { eof = true; break; } None => break } }
         loop { let mut min = true; match ownber::read(&inbuf, &mut min, 0) { ownber::Own::Ok(t, n) => {
-                    if let PL::C(k) = &t.payload { if k.len() >= 2 { let id = match &k[0].payload { PL::P(v) => ownber::twos(v).unwrap_or(-1), _ => -1 }; wire.push(format!("{}/{}", id, k[1].id)); } }
+                    if let PL::C(k) = &t.payload { if k.len() >= 2 { let id = match &k[0].payload { PL::P(v) => ownber::twos(v).unwrap_or(-1), _ => -1 }; // Bind, Add, ModifyDN, Compare and Extended requests are single-result requests like Delete: shown as 10
+                    wire.push(format!("{}/{}", id, match k[1].id { 0 | 8 | 12 | 14 | 23 => 10, t => t })); } }
                     inbuf.drain(..n); } _ => break } }
         if driver_result.is_none() && driver.is_finished() {
             driver_result = Some(match (&mut driver).now_or_never() { Some(Ok(Ok(()))) => "ok".into(), Some(Ok(Err(_))) => "err".into(), Some(Err(_)) => "panic".into(), None => "running".into() });
